@@ -21,7 +21,7 @@ func ruleSlotIndexPositive(c *Ctx) {
 	}
 	n := 0
 	var assumptions []string
-	walkAll(s.Body, func(m ast.Node) bool {
+	s.walk(func(m ast.Node) bool {
 		r, ok := m.(*ast.ReturnStmt)
 		if !ok || len(r.Results) != 1 {
 			return true
@@ -40,6 +40,7 @@ func ruleSlotIndexPositive(c *Ctx) {
 		}
 		return true
 	})
+
 	c.Floor(rule, s.Name, "return paths", n, 2)
 	for _, a := range uniq(assumptions) {
 		c.Note("R8.1 assumption: %s", a)
@@ -47,7 +48,7 @@ func ruleSlotIndexPositive(c *Ctx) {
 	// IndexToOffset(index) = (index-1)*recordSize + Headersize ⇒ index ≥ 1 ⇔ offset ≥ Headersize
 	if o := c.S(rule, "utils/io.IndexToOffset"); o != nil {
 		ok := false
-		walkAll(o.Body, func(m ast.Node) bool {
+		o.walk(func(m ast.Node) bool {
 			if r, isR := m.(*ast.ReturnStmt); isR && len(r.Results) == 1 {
 				if b, isB := unparen(r.Results[0]).(*ast.BinaryExpr); isB && b.Op == token.ADD {
 					if objKey(o.Info, b.Y) == "utils/io.Headersize" || objKey(o.Info, b.X) == "utils/io.Headersize" {
@@ -57,6 +58,7 @@ func ruleSlotIndexPositive(c *Ctx) {
 			}
 			return true
 		})
+
 		c.Check(ok, rule, o.Name, "offset-is-header-plus-slot", c.P.Pos(o.Body.Pos()), "IndexToOffset adds Headersize to the (index-1)-scaled slot, so index ≥ 1 keeps data out of the header")
 	}
 }
@@ -85,12 +87,13 @@ func rulePairedPrevState(c *Ctx) {
 	// candidates: function-level variables compared (==, !=) with another identifier inside a loop
 	// and assigned inside that loop
 	var loop *ast.ForStmt
-	walkAll(s.Body, func(m ast.Node) bool {
+	s.walk(func(m ast.Node) bool {
 		if fs, ok := m.(*ast.ForStmt); ok && loop == nil {
 			loop = fs
 		}
 		return true
 	})
+
 	if loop == nil {
 		c.Undecided(rule, s.Name, "row-loop", "no for loop found in WriteRecords")
 		return
@@ -98,29 +101,41 @@ func rulePairedPrevState(c *Ctx) {
 	declaredOutside := func(o types.Object) bool { return o != nil && (o.Pos() < loop.Pos() || o.Pos() > loop.End()) }
 	group := map[types.Object]bool{}
 	walkAll(loop.Body, func(m ast.Node) bool {
-		is, ok := m.(*ast.IfStmt)
-		if !ok {
-			return true
-		}
-		walkAll(is.Cond, func(k ast.Node) bool {
-			if b, ok := isCompareNode(k, token.EQL, token.NEQ); ok {
-				// <current-row value declared inside the loop> ==/!= <state declared outside it>
-				ox, _ := identObj(s.Info, b.X).(*types.Var)
-				oy, _ := identObj(s.Info, b.Y).(*types.Var)
-				if ox == nil || oy == nil {
-					return true
-				}
-				if declaredOutside(oy) && !declaredOutside(ox) && !isParam(s, oy) {
-					group[oy] = true
-				}
-				if declaredOutside(ox) && !declaredOutside(oy) && !isParam(s, ox) {
-					group[ox] = true
+		// conditions of if statements and of the cases of a tagless switch (the same decision
+		// written as `switch { case a == b: … }`)
+		var conds []ast.Expr
+		switch x := m.(type) {
+		case *ast.IfStmt:
+			conds = append(conds, x.Cond)
+		case *ast.SwitchStmt:
+			if x.Tag == nil {
+				for _, cc := range x.Body.List {
+					conds = append(conds, cc.(*ast.CaseClause).List...)
 				}
 			}
-			return true
-		})
+		}
+		for _, cond := range conds {
+			walkAll(cond, func(k ast.Node) bool {
+				if b, ok := isCompareNode(k, token.EQL, token.NEQ); ok {
+
+					ox, _ := identObj(s.Info, b.X).(*types.Var)
+					oy, _ := identObj(s.Info, b.Y).(*types.Var)
+					if ox == nil || oy == nil {
+						return true
+					}
+					if declaredOutside(oy) && !declaredOutside(ox) && !isParam(s, oy) {
+						group[oy] = true
+					}
+					if declaredOutside(ox) && !declaredOutside(oy) && !isParam(s, ox) {
+						group[ox] = true
+					}
+				}
+				return true
+			})
+		}
 		return true
 	})
+
 	// keep only those assigned inside the loop
 	assignedIn := map[types.Object][]*ast.AssignStmt{}
 	walkAll(loop.Body, func(m ast.Node) bool {
@@ -133,6 +148,7 @@ func rulePairedPrevState(c *Ctx) {
 		}
 		return true
 	})
+
 	var members []types.Object
 	for o := range group {
 		if len(assignedIn[o]) > 0 || true {
@@ -146,10 +162,20 @@ func rulePairedPrevState(c *Ctx) {
 		names = append(names, o.Name())
 	}
 	// every block that assigns one member assigns all members
-	blocks := map[*ast.BlockStmt]map[types.Object]bool{}
+	blocks := map[ast.Node]map[types.Object]bool{}
+	firstStmt := map[ast.Node]ast.Node{}
 	for o, list := range assignedIn {
 		for _, as := range list {
-			if blk, ok := par[as].(*ast.BlockStmt); ok {
+			var blk ast.Node
+			switch b := par[as].(type) {
+			case *ast.BlockStmt:
+				blk = b
+				firstStmt[blk] = b.List[0]
+			case *ast.CaseClause:
+				blk = b
+				firstStmt[blk] = b.Body[0]
+			}
+			if blk != nil {
 				if blocks[blk] == nil {
 					blocks[blk] = map[types.Object]bool{}
 				}
@@ -157,7 +183,7 @@ func rulePairedPrevState(c *Ctx) {
 			}
 		}
 	}
-	var blks []*ast.BlockStmt
+	var blks []ast.Node
 	for b := range blocks {
 		blks = append(blks, b)
 	}
@@ -170,7 +196,7 @@ func rulePairedPrevState(c *Ctx) {
 				missing = append(missing, o.Name())
 			}
 		}
-		construct := fmt.Sprintf("update-block#%d:%s", i+1, s.guardDesc(blk.List[0]))
+		construct := fmt.Sprintf("update-block#%d:%s", i+1, s.guardDesc(firstStmt[blk]))
 		if len(missing) == 0 {
 			c.Hold(rule, s.Name, construct, c.P.Pos(blk.Pos()), "block updates all of "+strings.Join(names, ", ")+" together")
 		} else {
@@ -241,7 +267,7 @@ func ruleWriteOrderPreserved(c *Ctx) {
 		file := c.P.FileOf(s.Pkg, s.Body.Pos())
 		par := c.P.Parents(file)
 		n := 0
-		walkAll(s.Body, func(m ast.Node) bool {
+		s.walk(func(m ast.Node) bool {
 			as, isAs := m.(*ast.AssignStmt)
 			if !isAs || len(as.Lhs) != 1 || len(as.Rhs) != 1 {
 				return true
@@ -266,12 +292,13 @@ func ruleWriteOrderPreserved(c *Ctx) {
 			c.Check(good, rule, s.Name, "append-in-command-order", c.P.Pos(as.Pos()), "per-file lists are appended while iterating the command slice (not a map)")
 			return true
 		})
+
 		c.Floor(rule, s.Name, "appends to the per-file lists", n, 1)
 	}
 	if s := c.S(rule, fnFlushToWAL); s != nil {
 		// commands are drained from the channel into a slice by ascending index
 		ok := false
-		walkAll(s.Body, func(m ast.Node) bool {
+		s.walk(func(m ast.Node) bool {
 			if as, isAs := m.(*ast.AssignStmt); isAs && len(as.Lhs) == 1 && len(as.Rhs) == 1 {
 				if _, isIx := unparen(as.Lhs[0]).(*ast.IndexExpr); isIx {
 					if u, isU := unparen(as.Rhs[0]).(*ast.UnaryExpr); isU && u.Op == token.ARROW && fieldKey(s.Info, u.X) == "executor.TransactionPipe.writeChannel" {
@@ -281,6 +308,7 @@ func ruleWriteOrderPreserved(c *Ctx) {
 			}
 			return true
 		})
+
 		c.Check(ok, rule, s.Name, "drain-in-queue-order", c.P.Pos(s.Body.Pos()), "queued commands are received from the FIFO channel into consecutive slice slots")
 	}
 }
@@ -296,7 +324,7 @@ func ruleSlotMappingUsed(c *Ctx) {
 	c.F(rule, "utils/io.IndexToOffset")
 	defs := func(o types.Object) []ast.Expr {
 		var out []ast.Expr
-		walkAll(s.Body, func(m ast.Node) bool {
+		s.walk(func(m ast.Node) bool {
 			if as, ok := m.(*ast.AssignStmt); ok && len(as.Lhs) == len(as.Rhs) {
 				for i, l := range as.Lhs {
 					if identObj(s.Info, l) == o {
@@ -306,6 +334,7 @@ func ruleSlotMappingUsed(c *Ctx) {
 			}
 			return true
 		})
+
 		return out
 	}
 	sites := s.sites(callPred(s, "(*executor.WALFileType).WriteCommand"))
@@ -406,12 +435,13 @@ func ruleBoundedAssembly(c *Ctx) {
 				"copy into a buffer sized from an ESTIMATE is reachable on a path where cursor+len(src) was found too large and the buffer was grown only once (no loop): the copy truncates silently (result discarded), the cursor still advances by len(src) and the final re-slice panics when a bucket decompresses to more than the estimate", r.Hits[0].Path)
 		}
 	}
-	walkAll(s.Body, func(m ast.Node) bool {
+	s.walk(func(m ast.Node) bool {
 		if call, ok := m.(*ast.CallExpr); ok && CalleeName(s.Info, call) == "builtin.append" {
 			appends++
 		}
 		return true
 	})
+
 	c.Floor(rule, s.Name, "result assembly sites (cursor copies or appends)", copies+appends, 1)
 	if copies == 0 {
 		c.Hold(rule, s.Name, "assembly-by-append", c.P.Pos(s.Body.Pos()), fmt.Sprintf("result is assembled with append (%d sites): growth is bounded by construction", appends))
@@ -452,7 +482,7 @@ func ruleSortBeforeWrite(c *Ctx) {
 	c.reportHits(rule, s, "sort-before-write", r, "every write to the data file is preceded by a sort of the merged records by interval ticks", "merged records can be written unsorted: records of one interval come back out of time order")
 	// what is sorted is what is written (directly or after compression)
 	ok := false
-	walkAll(s.Body, func(m ast.Node) bool {
+	s.walk(func(m ast.Node) bool {
 		call, isC := m.(*ast.CallExpr)
 		if !isC || sortedObj == nil {
 			return true
@@ -465,6 +495,7 @@ func ruleSortBeforeWrite(c *Ctx) {
 		}
 		return true
 	})
+
 	c.Check(ok, rule, s.Name, "sorted-buffer-is-written", c.P.Pos(s.Body.Pos()), "the buffer handed to the sort is the one written (directly or via snappy.Encode)")
 	// stable sort: equal ticks keep arrival order
 	stable := len(s.sites(callPred(s, "sort.Stable"))) > 0
@@ -493,7 +524,7 @@ func ruleTicksCodecAgreement(c *Ctx) {
 	// decoders: Less compares unsigned 32-bit values decoded from the trailing 4 bytes
 	if s := c.S(rule, "(*executor.ByIntervalTicks).Less"); s != nil {
 		n := 0
-		walkAll(s.Body, func(m ast.Node) bool {
+		s.walk(func(m ast.Node) bool {
 			if r, ok := m.(*ast.ReturnStmt); ok && len(r.Results) == 1 {
 				if b, ok := unparen(r.Results[0]).(*ast.BinaryExpr); ok {
 					n++
@@ -504,15 +535,17 @@ func ruleTicksCodecAgreement(c *Ctx) {
 			}
 			return true
 		})
+
 		c.Floor(rule, s.Name, "comparisons", n, 1)
 		dec := 0
-		walkAll(s.Body, func(m ast.Node) bool {
+		s.walk(func(m ast.Node) bool {
 			if call, ok := m.(*ast.CallExpr); ok && decodePrims[CalleeName(s.Info, call)] {
 				dec++
 				c.Check(CalleeName(s.Info, call) == "utils/io.ToUInt32", rule, s.Name, fmt.Sprintf("decode-primitive#%d", dec), c.P.Pos(call.Pos()), "ticks decoded with the unsigned 32-bit primitive")
 			}
 			return true
 		})
+
 		c.Floor(rule, s.Name, "decode sites", dec, 2)
 	}
 	for _, key := range []string{"executor.RewriteBuffer", "replication.serializeVariableRecords"} {
@@ -527,7 +560,7 @@ func ruleTicksCodecAgreement(c *Ctx) {
 			t := types.TypeString(s.Info.TypeOf(call.Args[2]), nil)
 			src := call.Args[2]
 			if o := identObj(s.Info, src); o != nil {
-				walkAll(s.Body, func(m ast.Node) bool {
+				s.walk(func(m ast.Node) bool {
 					if as, ok := m.(*ast.AssignStmt); ok && len(as.Lhs) == len(as.Rhs) {
 						for i, l := range as.Lhs {
 							if identObj(s.Info, l) == o {
@@ -537,6 +570,7 @@ func ruleTicksCodecAgreement(c *Ctx) {
 					}
 					return true
 				})
+
 			}
 			okPrim := false
 			if cx, isC := unparen(src).(*ast.CallExpr); isC {
@@ -572,7 +606,7 @@ func ruleTicksCodecAgreement(c *Ctx) {
 	}
 	if s := c.S(r4, "(*utils/io.TimeBucketInfo).GetVariableRecordLength"); s != nil {
 		ok := false
-		walkAll(s.Body, func(m ast.Node) bool {
+		s.walk(func(m ast.Node) bool {
 			if as, isAs := m.(*ast.AssignStmt); isAs && len(as.Rhs) == 1 {
 				if b, isB := unparen(as.Rhs[0]).(*ast.BinaryExpr); isB && b.Op == token.ADD {
 					if v, isC := constInt(s.Info, b.Y); isC && v == 4 {
@@ -582,6 +616,7 @@ func ruleTicksCodecAgreement(c *Ctx) {
 			}
 			return true
 		})
+
 		c.Check(ok, r4, s.Name, "variable-record-length-adds-4", c.P.Pos(s.Body.Pos()), "variable record length = field bytes + 4-byte ticks trailer")
 	}
 }
@@ -612,6 +647,7 @@ func ruleTicksScaleAgreement(c *Ctx) {
 				}
 				return true
 			})
+
 			if uses {
 				dec, decPos = enc, f.Decl.Pos()
 			}
@@ -631,7 +667,7 @@ func ruleTicksScaleAgreement(c *Ctx) {
 		rounding := s.sites(callPred(s, "math.Round", "math.Ceil", "math.RoundToEven"))
 		c.Check(len(rounding) == 0, r2, s.Name, "truncating-conversion", c.P.Pos(s.Body.Pos()), "the encoder converts with the truncating uint32(float64) conversion, so the decoded time is never later than the original")
 		ok := false
-		walkAll(s.Body, func(m ast.Node) bool {
+		s.walk(func(m ast.Node) bool {
 			if r, isR := m.(*ast.ReturnStmt); isR && len(r.Results) == 1 {
 				if call, isC := unparen(r.Results[0]).(*ast.CallExpr); isC {
 					if tv, has := s.Info.Types[call.Fun]; has && tv.IsType() && types.TypeString(tv.Type, nil) == "uint32" {
@@ -641,6 +677,7 @@ func ruleTicksScaleAgreement(c *Ctx) {
 			}
 			return true
 		})
+
 		c.Check(ok, r2, s.Name, "returns-uint32-conversion", c.P.Pos(s.Body.Pos()), "the encoder's result is a direct uint32 conversion")
 	}
 	if f := c.F(r2, "executor.GetTimeFromTicks"); f != nil {
@@ -692,12 +729,12 @@ func ruleSearchLoopNotFound(c *Ctx) {
 	file := c.P.FileOf(s.Pkg, s.Body.Pos())
 	par := c.P.Parents(file)
 	loops := 0
-	walkAll(s.Body, func(m ast.Node) bool {
+	s.walk(func(m ast.Node) bool {
 		fs, ok := m.(*ast.ForStmt)
 		if !ok {
 			return true
 		}
-		// if-bodies ending in break that assign exactly one variable X from a slice expression
+
 		walkAll(fs.Body, func(k ast.Node) bool {
 			is, ok := k.(*ast.IfStmt)
 			if !ok || len(is.Body.List) < 2 {
@@ -726,9 +763,9 @@ func ruleSearchLoopNotFound(c *Ctx) {
 			for o := range assigned {
 				x = o
 			}
-			// is X possibly non-empty when the loop starts? (assigned a slice expression / call result before the loop, or a parameter)
+
 			nonEmptyBefore := isParam(s, x)
-			walkAll(s.Body, func(q ast.Node) bool {
+			s.walk(func(q ast.Node) bool {
 				as, isAs := q.(*ast.AssignStmt)
 				if !isAs || as.Pos() >= fs.Pos() {
 					return true
@@ -740,7 +777,7 @@ func ruleSearchLoopNotFound(c *Ctx) {
 				}
 				return true
 			})
-			// after the loop, is there a statement that handles "not found" (assigns X or returns something else) before X is used?
+
 			handled := false
 			if blk, isBlk := par[fs].(*ast.BlockStmt); isBlk {
 				after := false
@@ -760,7 +797,7 @@ func ruleSearchLoopNotFound(c *Ctx) {
 						}
 					}
 					if _, isIf := st.(*ast.IfStmt); isIf {
-						handled = true // some post-loop test exists
+						handled = true
 					}
 					break
 				}
@@ -774,8 +811,10 @@ func ruleSearchLoopNotFound(c *Ctx) {
 			}
 			return true
 		})
+
 		return true
 	})
+
 	c.Floor(rule, s.Name, "search-and-slice loops", loops, 1)
 }
 
@@ -813,7 +852,7 @@ func ruleTrimOrder(c *Ctx) {
 		call := n.(*ast.CallExpr)
 		if len(call.Args) == 3 {
 			o := identObj(s.Info, call.Args[2])
-			walkAll(s.Body, func(m ast.Node) bool {
+			s.walk(func(m ast.Node) bool {
 				if as, isAs := m.(*ast.AssignStmt); isAs && len(as.Lhs) == 1 && len(as.Rhs) == 1 && identObj(s.Info, as.Lhs[0]) == o && o != nil {
 					if cx, isC := unparen(as.Rhs[0]).(*ast.CallExpr); isC && CalleeName(s.Info, cx) == "executor.trimResultsToRange" {
 						ok = true
@@ -821,6 +860,7 @@ func ruleTrimOrder(c *Ctx) {
 				}
 				return true
 			})
+
 		}
 	}
 	c.Check(ok, r12, s.Name, "limit-consumes-range-result", c.P.Pos(s.Body.Pos()), "trimResultsToLimit's input is the variable assigned from trimResultsToRange")
@@ -856,7 +896,7 @@ func ruleTrimOrder(c *Ctx) {
 		c.Floor(r122, rd.Name, "readBackward sites", rr.TargetSites, 1)
 		// NOTE: path-insensitive w.r.t. the later `direction == FIRST` test; accept hits only if the refusal is missing
 		refusal := false
-		walkAll(rd.Body, func(m ast.Node) bool {
+		rd.walk(func(m ast.Node) bool {
 			is, ok := m.(*ast.IfStmt)
 			if !ok {
 				return true
@@ -864,7 +904,7 @@ func ruleTrimOrder(c *Ctx) {
 			if b, ok := isCompare(is.Cond, token.EQL); ok && (objKey(rd.Info, b.Y) == "utils/io.LAST" || objKey(rd.Info, b.X) == "utils/io.LAST") {
 				for _, st := range is.Body.List {
 					if r, isR := st.(*ast.ReturnStmt); isR && rd.lastResultCertainlyNonNil(r) {
-						// it must sit on the unlimited branch
+
 						if strings.HasPrefix(rd.guardDesc(is), "else[") || strings.HasPrefix(rd.guardDesc(is), "if[") {
 							refusal = true
 						}
@@ -873,6 +913,7 @@ func ruleTrimOrder(c *Ctx) {
 			}
 			return true
 		})
+
 		c.Check(refusal, r122, rd.Name, "unlimited-reverse-scan-refused", c.P.Pos(rd.Body.Pos()), "a LAST-direction read without a row limit returns an error before any file is scanned")
 		_ = rr
 	}
